@@ -4,6 +4,15 @@
 K = {"name": "TestKnown", "enum": True}
 
 CHECKS = {
+    "C01": {
+        "level": "exploration",
+        "tests": [
+            {"name": "TestC01History", "checks": [150, 1500], "shards": [4, 16], "floor": 0.8, "gomaxprocs": 1},
+            K,
+        ],
+        "assumptions": ["object reuse in sync.Pool is per-P and probabilistic: histories run on a single P with GC actions to maximise reuse; recycling is observable only through its effect on results",
+                        "registered names are rendered only while the cache is on"],
+    },
     "C02": {
         "level": "exploration",
         "tests": [
